@@ -5,6 +5,7 @@ import (
 	"fmt"
 	"image"
 	"image/color"
+	"strings"
 
 	webp "github.com/deepteams/webp"
 	"github.com/deepteams/webp/internal/zzverif/choice"
@@ -41,7 +42,75 @@ func (cs *c01Case) source() *image.NRGBA {
 		}
 		return img
 	}
+	if strings.HasPrefix(cs.Content, "motif:") {
+		return motifPicture(cs.Content)
+	}
 	return imgs.Make(cs.W, cs.H, cs.Content, cs.Alpha, cs.Seed)
+}
+
+// motifPicture builds the picture "motif:K:a:b": a K-colour palette picture (K > 16: one
+// index per pixel) whose index stream makes an LZ77 coder emit, four times over,
+//
+//	copy(... a)   b   copy(a ...)   b
+//
+// i.e. a copy ending in colour a, colour b alone, a copy starting with a, b again.  The
+// part of C01 that uses it enumerates EVERY ordered pair (a,b) of palette entries, so
+// whichever two symbols share a slot of whatever colour cache the encoder chooses (or a
+// prefix-code leaf, or a hash bucket), the pair is there in both orders: the encoder's
+// model of the decoder state (colour cache contents after copies vs. after literals) is
+// exercised at every collision, without the check knowing the hash function.
+func motifPicture(content string) *image.NRGBA {
+	var K, a, b int
+	fmt.Sscanf(content, "motif:%d:%d:%d", &K, &a, &b)
+	pal := make([]color.NRGBA, K)
+	for i := range pal {
+		pal[i] = color.NRGBA{R: uint8(10 * i), G: uint8(255 - 3*i), B: uint8(7 * i), A: 255}
+	}
+	var fill []int
+	for i := 0; i < K; i++ {
+		if i != a && i != b {
+			fill = append(fill, (i+a)%K)
+		}
+	}
+	// (the rotation by a may map onto a or b again: filter once more)
+	var f2 []int
+	seen := map[int]bool{a: true, b: true}
+	for _, v := range fill {
+		if !seen[v] {
+			seen[v] = true
+			f2 = append(f2, v)
+		}
+	}
+	for i := 0; i < K; i++ {
+		if !seen[i] {
+			seen[i] = true
+			f2 = append(f2, i)
+		}
+	}
+	fill, rest := f2[:13], f2[13:]
+	z1, z2, z3 := fill[0], fill[1], fill[2]
+	x1 := append(append([]int{}, fill[3:8]...), a)
+	x2 := append([]int{a}, fill[8:13]...)
+	motif := append(append(append(append([]int{}, x1...), b), x2...), b)
+	var stream []int
+	stream = append(stream, z1)
+	stream = append(stream, x1...)
+	stream = append(stream, z2)
+	stream = append(stream, x2...)
+	stream = append(stream, z3)
+	stream = append(stream, rest...)
+	for k := 0; k < 4; k++ {
+		stream = append(stream, motif...)
+	}
+	const w = 8
+	for len(stream)%w != 0 {
+		stream = append(stream, z1)
+	}
+	img := image.NewNRGBA(image.Rect(0, 0, w, len(stream)/w))
+	for i, idx := range stream {
+		img.SetNRGBA(i%w, i/w, pal[idx])
+	}
+	return img
 }
 
 func (cs *c01Case) key() string {
@@ -138,9 +207,9 @@ func c01Body(e *fw.Env, r *fw.Result) func(c *choice.Ctx) {
 	bigSizes := [][2]int{{64, 64}, {65, 33}, {129, 2}, {320, 320}, {1, 16383}, {16383, 1}}
 	return func(c *choice.Ctx) {
 		cs := &c01Case{Seed: e.Seed, Type: "NRGBA"}
-		parts := 7
+		parts := 8
 		if !quick {
-			parts = 9
+			parts = 10
 		}
 		switch c.PickFree(parts, "part") {
 		case 0: // transform-selection product
@@ -207,14 +276,31 @@ func c01Body(e *fw.Env, r *fw.Result) func(c *choice.Ctx) {
 			cs.Alpha = []string{"opaque", "late"}[c.PickFree(2, "alpha")]
 			qm := [][2]int{{75, 4}, {90, 4}, {100, 6}, {25, 0}, {50, 2}}[c.PickFree(5, "qm")]
 			cs.Q, cs.M = qm[0], qm[1]
-		case 7: // thorough: large pictures (parallel paths eligible, strips at the dimension cap)
+		case 7: // copy / literal / copy / literal motif for every ordered pair of palette entries
+			K := []int{24, 40, 17}[c.PickFree(3, "palette")]
+			a := c.PickFree(K, "a")
+			b := c.PickFree(K, "b")
+			if a == b {
+				return
+			}
+			cs.Content = fmt.Sprintf("motif:%d:%d:%d", K, a, b)
+			cs.Alpha = "opaque"
+			m := motifPicture(cs.Content).Rect
+			cs.W, cs.H = m.Dx(), m.Dy()
+			qm := [][2]int{{75, 4}, {100, 6}, {30, 0}}
+			if !quick {
+				qm = append(qm, [2]int{50, 2}, [2]int{90, 5}, [2]int{26, 3})
+			}
+			x := qm[c.PickFree(len(qm), "qm")]
+			cs.Q, cs.M = x[0], x[1]
+		case 8: // thorough: large pictures (parallel paths eligible, strips at the dimension cap)
 			s := bigSizes[c.PickFree(len(bigSizes), "size")]
 			cs.W, cs.H = s[0], s[1]
 			cs.Content = []string{"c4", "c17", "gradient", "noise"}[c.PickFree(4, "content")]
 			cs.Alpha = []string{"opaque", "binary", "agradient"}[c.PickFree(3, "alpha")]
 			qm := [][2]int{{75, 4}, {100, 6}, {0, 0}, {75, 5}, {50, 2}}[c.PickFree(5, "qm")]
 			cs.Q, cs.M = qm[0], qm[1]
-		case 8: // thorough: every Quality 0..100 on a core set
+		case 9: // thorough: every Quality 0..100 on a core set
 			core := [][2]int{{9, 5}, {16, 16}, {33, 17}}
 			s := core[c.PickFree(len(core), "size")]
 			cs.W, cs.H = s[0], s[1]
@@ -247,7 +333,7 @@ func c01Body(e *fw.Env, r *fw.Result) func(c *choice.Ctx) {
 func init() {
 	fw.Register(&fw.Check{
 		ID: "C01", Level: "exploration", Shards: shards16,
-		Rule:   "full product of (size class x colour-content class x alpha class x Go image type x Quality thresholds x Method 0..6 x Exact x metadata) in four sub-products plus every image of shape 1x1,2x1,1x2,3x1,2x2 over a 5-pixel alphabet, plus every number of distinct colours 1..260 on a 20x20 noise layout, plus 224x225 and 320x200 pictures (beyond the 50000-pixel and histogram-tile thresholds) x 4 contents x 2 alpha classes x 5 Quality/Method pairs; a case is non-trivial if it is not the 1x1 NRGBA base picture; distinct = distinct (image class, option) tuple",
+		Rule:   "full product of (size class x colour-content class x alpha class x Go image type x Quality thresholds x Method 0..6 x Exact x metadata) in four sub-products plus every image of shape 1x1,2x1,1x2,3x1,2x2 over a 5-pixel alphabet, plus every number of distinct colours 1..260 on a 20x20 noise layout, plus the copy/literal/copy/literal motif for EVERY ordered pair of entries of a 17-, 24- and 40-colour palette (colour-cache and hash collisions in both orders) x 3 Quality/Method pairs, plus 224x225 and 320x200 pictures (beyond the 50000-pixel and histogram-tile thresholds) x 4 contents x 2 alpha classes x 5 Quality/Method pairs; a case is non-trivial if it is not the 1x1 NRGBA base picture; distinct = distinct (image class, option) tuple",
 		Assume: []string{"worker count pinned to 1 and pools never reuse (C12/C11 study those)", "independent decoder: vendored golang.org/x/image/vp8l", "filler pixel values inside a class are a fixed function of position and VERIF_SEED"},
 		Run: func(e *fw.Env, r *fw.Result) {
 			pin()
